@@ -82,12 +82,32 @@ func network(keys []*k1.PrivateKey, rng *hx.Rng) (mocknet.Mocknet, []host.Host) 
 	return mn, hosts
 }
 
-// run executes one protocol instance on every node concurrently.
+// run executes one protocol instance with kyber's phase time-out growing over up to three attempts:
+// completion within a given wall-clock time is not part of the property (a loaded machine must not
+// turn into an alarm); only a ceremony that fails with every time-out is reported.
 func (c *ceremony) run(sched uint64, threshold int, reshare *pedersen.ReshareConfig, old [][]share.Share) ([][]share.Share, []error) {
+	var out [][]share.Share
+	var errs []error
+	for _, phase := range []time.Duration{2 * time.Second, 8 * time.Second, 25 * time.Second} {
+		out, errs = c.runOnce(sched, threshold, reshare, old, phase)
+		ok := true
+		for _, e := range errs {
+			if e != nil {
+				ok = false
+			}
+		}
+		if ok {
+			break
+		}
+	}
+	return out, errs
+}
+
+func (c *ceremony) runOnce(sched uint64, threshold int, reshare *pedersen.ReshareConfig, old [][]share.Share, phase time.Duration) ([][]share.Share, []error) {
 	rng := hx.NewRng(sched)
 	mn, hosts := network(c.keys, rng)
 	defer mn.Close()
-	ctx, cancel := context.WithTimeout(context.Background(), 90*time.Second)
+	ctx, cancel := context.WithTimeout(context.Background(), 45*phase)
 	defer cancel()
 
 	var peers []peer.ID
@@ -104,7 +124,7 @@ func (c *ceremony) run(sched uint64, threshold int, reshare *pedersen.ReshareCon
 	configs := make([]*pedersen.Config, c.n)
 	for i, h := range hosts {
 		bc := bcast.New(h, peers, c.keys[i], session)
-		configs[i] = pedersen.NewConfig(h.ID(), peerMap, threshold, session, 2*time.Second, reshare)
+		configs[i] = pedersen.NewConfig(h.ID(), peerMap, threshold, session, phase, reshare)
 		boards[i] = pedersen.NewBoard(ctx, h, configs[i], bc)
 	}
 	out := make([][]share.Share, c.n)
